@@ -78,6 +78,8 @@ type Contract struct {
 	MergeExits    bool
 	NoMerge       bool // path splitting at top-level branching statements
 	GuardsOn      bool
+	Callers       []string // whitelist of calling functions (nil = anyone)
+	CallersProps  []string
 	GhostAfter    []*GhostAnchor // ghost assignments executed after the statement whose text starts with Anchor
 	GhostEntry    []*Effect      // ghost assignments executed at function entry (explicit instrumentation)
 	LoopInvs      []*Clause
@@ -616,6 +618,16 @@ func (cf *ContractFile) parseOne(path string) error {
 					return fail(err)
 				}
 				c.GhostEntry = append(c.GhostEntry, &Effect{LHS: le, RHS: re, Src: rest})
+			case "callers":
+				// callers [PROPS] f1 f2 ... : only these functions may call this one
+				r := rest
+				if m := reProps.FindStringSubmatch(r); m != nil {
+					for _, p := range strings.Split(m[1], ",") {
+						c.CallersProps = append(c.CallersProps, strings.TrimSpace(p))
+					}
+					r = m[2]
+				}
+				c.Callers = append(c.Callers, strings.Fields(r)...)
 			case "writes":
 				c.Writes = append(c.Writes, strings.Fields(strings.ReplaceAll(rest, ",", " "))...)
 			case "guards":
